@@ -330,7 +330,8 @@ func main() {
 		c.Bound = fmt.Sprintf("preemption bound %d (every scenario), horizon 20000 points", bound)
 		c.Assumptions = []string{"channel buffers (leaves channel 100, snapshot request queue 10) never fill in these scenarios, so sends never block",
 			"the goroutines and blocking receives of accountsDB.go / trieStorageManager.go are made visible to the scheduler by exact-text overlay substitutions (ovl/subst/c10_*.txt); the build is refused if a pattern no longer matches",
-			"production buffer sizes; snapshot databases are in-memory and not scheduling points (they are private to the snapshot threads)"}
+			"production buffer sizes; snapshot databases are in-memory and not scheduling points (they are private to the snapshot threads)",
+			"map iteration inside data/state, data/trie and the pruning packages is pinned to sorted key order by the map-range rewrite (Go's random order would make executions non-replayable); other map orders are not explored here"}
 		if len(c.ReplayData) > 0 {
 			var rp struct {
 				Scenario int
@@ -357,15 +358,28 @@ func main() {
 			c.Count("max_points["+sc.Name+"]", int64(st.MaxPoints))
 		}
 		if !c.Quick() && c.NumViolations() == 0 {
-			// deeper, time-boxed: preemption bound 2 on the first scenario (its full space is
-			// ~10^7 schedules; whatever fits in the budget is explored depth-first and the cap
-			// is reported, bound 1 above stays the completed bound)
-			sc := scenarios()[0]
-			saved := c.Deadline
-			c.Deadline = time.Now().Add(12 * time.Minute)
-			st := mc.Explore(c, 2, 1, func(ch *mc.Chooser) { runOne(c, 0, sc, ch) })
-			c.Deadline = saved
-			c.Count("schedules_bound2_timeboxed["+sc.Name+"]", st.Executions)
+			// deeper: preemption bound 2, scenario by scenario, each time-boxed (whatever fits in
+			// the budget is explored depth-first and a cap is reported; bound 1 above stays the
+			// bound completed for every scenario)
+			done2 := []string{}
+			for si, sc := range scenarios() {
+				if only := os.Getenv("VERIF_C10_BOUND2"); only != "" && !strings.Contains(only, fmt.Sprint(si)) {
+					continue
+				}
+				si, sc := si, sc
+				saved := c.Deadline
+				c.Deadline = time.Now().Add(7 * time.Minute)
+				st := mc.Explore(c, 2, 1, func(ch *mc.Chooser) { runOne(c, si, sc, ch) })
+				if !st.Capped {
+					done2 = append(done2, fmt.Sprint(si+1))
+				}
+				c.Deadline = saved
+				c.Count("schedules_bound2["+sc.Name+"]", st.Executions)
+				if c.NumViolations() > 0 {
+					break
+				}
+			}
+			c.Bound += fmt.Sprintf("; preemption bound 2 completed for scenarios %v (7-minute box each)", done2)
 		}
 	})
 }
